@@ -2,29 +2,43 @@
 {'harness': 'c18',
  'props': 'Props/C18.v',
  'models': ['Model/Encoding.v'],
- 'trusted': ['the name -> decoder map (supportedEncodingMappings), the default/fallback name of WrapEncoding '
-             'and the order StripBOM(WrapEncoding(input)) are extracted from header/header.go and schema.go '
-             'into Gen/Encoding.v on every run',
-             'golang.org/x/text charmap decoders are modelled as bytewise table decoders; their 2x256 table '
-             'entries are observed through WrapEncoding and compared with the model tables (written from the '
-             'Unicode mapping files) on every run',
-             'ios.StripBOM: bufio.Reader.ReadRune (fill loop + utf8.FullRune) is transcribed (fill_until, '
-             'full_rune) and proved equal, for every split of the stream into reads, to utf8.DecodeRune on '
-             'the whole stream (bom_split_across_reads); UnreadRune = put the rune back; I/O errors of the '
-             'source are out of scope here (C16); validated with one-byte, data+EOF and random chunk readers',
-             'long inputs (non-ASCII bytes at and across every offset around k*4096, the size of the '
-             "bufio.Reader inside ios.StripBOM and of x/text's transform buffers) are compared as streams "
-             'for all three encodings with a small-read and a ReadAll consumer, and as Read transcripts for '
-             'the formats',
-             'the format readers are not modelled here: equality of Read transcripts is decided on the Go '
-             'side (transcript(bytes, X) == transcript(utf8_of_X(bytes), utf-8)) for the seven formats',
-             'round-3 classes: XML documents carrying their own prolog encoding label under every '
-             'parser_settings.encoding; long inputs with a pure-ASCII head of k*4096(+0..8) bytes and the '
-             'first byte >= 0x80 only later (up to the last byte); two transforms of one encoding alive at '
-             'the same time (same Schema / two Schemas, random switch points) must each give their solo '
-             'transcript',
-             'round-4 class: records spanning several lines (fixedlength2 / csv2: fixed row count, '
-             'header/footer delimited, blank lines in between), inputs of 4..14 KB with bytes >= 0x80 in '
-             'every record, whole and chunked sources: transcript(bytes, X) vs transcript(utf8(bytes), '
-             'utf-8)'],
- 'assumptions': []}
+ 'trusted': ['EXTRACTED on every run (Gen/Encoding.v, harness/cmd/extract/gen_encoding.go): the name -> '
+             'decoder map supportedEncodingMappings, the default and fallback names of WrapEncoding, and the '
+             'order of StripBOM / WrapEncoding in schema.go NewTransform (dataflow from the input parameter '
+             'to NewIngester); an unknown decoder or shape makes the extraction fail and with it every '
+             'theorem of Props/C18.v',
+             'PROVED over the model (all byte strings, all three encodings): pipeline X bytes = pipeline '
+             'utf-8 (standard conversion) and is total (encoding_transparent); decoding is a bytewise '
+             'homomorphism and independent of chunking (decode_app, decode_chunk_invariant); every byte of a '
+             "code-page input becomes exactly one rune, the code page's, in order, the result is well-formed "
+             'UTF-8 and nothing is dropped, the last byte included (decode_one_rune_per_byte, '
+             'decode_last_byte_kept); exactly the five unassigned windows-1252 bytes become U+FFFD '
+             '(windows1252_unassigned_bytes); neither code page contains U+FEFF (bom_not_in_range); the '
+             'utf-8 / default path is the identity minus at most one leading mark on every byte string incl. '
+             'ill-formed ones and EF BF BD (utf8_path_is_identity, strip_bom_exact, bom_stripped_once, '
+             'utf8_without_bom_untouched, leading_bom_only_if_doubled, codepage_never_stripped); StripBOM '
+             'through bufio.Reader (ReadRune fill loop, utf8.FullRune transcribed) gives the same result for '
+             'every split of the stream into reads (bom_split_across_reads, pipeline_split_invariant)',
+             "COMPARED on every run (correspondence, not proved): the contents of x/text's charmap tables "
+             'for ISO8859_1 and Windows1252 (2x256 runes observed through WrapEncoding = the model tables '
+             'written from the Unicode mapping files; tables_match_impl makes check_case a complete '
+             'comparison); the stream NewTransform hands to the ingester (PipeCase / SegPipeCase: short and '
+             'long inputs, boundaries at k*4096, pure-ASCII heads, BOM variants; SplitCase: the bufio fill '
+             "model on one-byte / chunked / data+EOF sources); x/text transform.Reader's buffering is not "
+             "modelled beyond 'bytewise'",
+             'GO-SIDE ORACLE only (format readers are not modelled in C18): transcript(bytes, X) == '
+             'transcript(utf8_of_X(bytes), utf-8) for the seven formats incl. multi-line fixedlength2/csv2 '
+             'records, XML prolog encoding labels, long inputs, interleaved transforms; I/O errors of the '
+             'source are out of scope (C16)'],
+ 'assumptions': [],
+ 'level_text': 'Coq theorems over a Gallina transcription of header.go WrapEncoding + schema.go NewTransform '
+               '+ ios.StripBOM (bufio ReadRune loop) + the bytewise charmap decoder, for all byte strings / '
+               'all splits into reads / all three encodings; the decoder map and the stage order are '
+               're-extracted from the source on every run; tied to the code by a correspondence check that '
+               'evaluates the model inside Coq on the streams real NewTransform calls hand to an ingester, '
+               'and by a Go-side transcript oracle over the seven formats.',
+ 'level_note': 'Trusted: Coq kernel/vm_compute, the Go harness and extractor; x/text charmap tables are '
+               'compared (2x256) not proved; no axioms (Print Assumptions: closed).',
+ 'technique': 'machine-checked proof in Coq 8.16 (induction over byte strings and read splits, finite sweeps '
+              'over the 256 byte values) + extracted decoder map / stage order + model/implementation '
+              'correspondence'}
